@@ -3,14 +3,15 @@
 # of /repo's current HEAD: (1) full suite passes with the patch, (2) demo exits 1 with it, (3) demo exits 0 without it.
 ID="$1"; M="$2"; ROOTSRC="${3:-/tmp/seed_out}"; SUF="${4:-}"; SRC=$ROOTSRC/$ID/$M; WT=/tmp/confirm/$ID-$M$SUF; DST=/verif/seeded/$ID-$M$SUF
 [ -f "$SRC/patch.diff" ] || { echo "no patch for $ID $M"; exit 2; }
-mkdir -p /tmp/confirm; git -C /repo worktree add -q --detach "$WT" HEAD || exit 2
+REF="${CONFIRM_REF:-HEAD}"          # CONFIRM_REF: confirm against an earlier commit (a seed neutralised by a later fix)
+mkdir -p /tmp/confirm; git -C /repo worktree add -q --detach "$WT" "$REF" || exit 2
 cd "$WT"
 cp "$SRC/demo.py" demo.py
 /venv/bin/python demo.py >/tmp/confirm/$ID-$M$SUF.clean.log 2>&1; RC_CLEAN=$?
 if git apply "$SRC/patch.diff"; then APPLIED=1; else APPLIED=0; fi
 /venv/bin/python demo.py >/tmp/confirm/$ID-$M$SUF.mut.log 2>&1; RC_MUT=$?
 SUITE=$(/venv/bin/python -m pytest -q -p no:cacheprovider -n 8 2>&1 | tail -1)
-HEAD=$(git -C /repo rev-parse --short HEAD)
+HEAD=$(git -C /repo rev-parse --short "$REF")
 cd /; git -C /repo worktree remove --force "$WT"
 mkdir -p "$DST"; cp "$SRC/patch.diff" "$SRC/demo.py" "$DST/"; [ -f "$SRC/notes.md" ] && cp "$SRC/notes.md" "$DST/notes.md"
 cat > "$DST/confirm.json" <<EOT
